@@ -922,9 +922,8 @@ static int do_foreach(int m_, const struct op *o_)
 	} else {
 		arm_stuck(0);
 		cnt[C_FOREACH_STUCK]++;
-		FAIL(1, "model:C10:foreach-stuck", "_vbi_cache_foreach_page(%x.%x dir %+d) made no progress for 0.4 s CPU after %d visits; the network holds %d stored pages (%s)",
-		     o->pgno, o->subno, o->a, c.visits, mnets[m].n_stored,
-		     "unknown");
+		FAIL(1, "model:C10:foreach-stuck", "_vbi_cache_foreach_page(%x.%x dir %+d) made no progress for 0.4 s CPU after %d visits; the network holds %d stored pages",
+		     o->pgno, o->subno, o->a, c.visits, mnets[m].n_stored);
 		return 0;
 	}
 	cnt[C_FOREACH_VISITS] += c.visits;
